@@ -18,17 +18,18 @@ Steps(t) == Traces[t].steps
 ParF(T) == T.m.par
 SpF(T)  == T.m.sp
 
-(* FStringFree: f-string internals are outside the domain (CPython's own positions  *)
-(* of `{x=}` constants overlap their siblings); the node table stops at JoinedStr,  *)
-(* and a rectangle is only judged when it is disjoint from every f-string or        *)
-(* strictly contains it (then no answer can lie inside it)                          *)
-FStringFree(T, r) ==
-  \A j \in 1..NN(T) : K(T, j) = "JoinedStr" /\ RLoc(T, j) # NoSpan =>
-     LET s == RLoc(T, j) IN r[2] <= s[1] \/ s[2] <= r[1] \/ (r[1] <= s[1] /\ s[2] <= r[2] /\ r # s)
+(* DebugFieldFree (named domain predicate): CPython 3.12 positions the text Constant of a   *)
+(* self-documenting f-string field `{x = }` INSIDE the field although it is the field's       *)
+(* previous sibling (LocLaws!DebugText), so the span tree is not well-formed there and the    *)
+(* docstrings of find_* do not determine an answer; a rectangle is judged unless it cuts into *)
+(* such a pair (it may lie beside it or reach beyond it on at least one side)                 *)
+(* T.m.dbg: the regions <<lo, hi>> covered by such pairs, from CPython's positions (LocLaws!Memo) *)
+DebugFieldFree(T, r) ==
+  \A u \in T.m.dbg : r[2] <= u[1] \/ u[2] <= r[1] \/ (r[1] <= u[1] /\ u[2] <= r[2] /\ r # u)
 
 QRect(q) == <<P(q.r[1], q.r[2]), P(q.r[3], q.r[4])>>
 QDomain(T, q) == /\ q.frm \in 1..NN(T) /\ RLoc(T, q.frm) # NoSpan
-                 /\ QRect(q)[1] <= QRect(q)[2] /\ FStringFree(T, QRect(q))
+                 /\ QRect(q)[1] <= QRect(q)[2] /\ DebugFieldFree(T, QRect(q))
 
 FindClauses(T, q) ==
   IF ~QDomain(T, q) THEN {Cl("Find.outside_domain", TRUE)}
